@@ -113,6 +113,13 @@ def n_adapt(it, a, d, m):
             else:
                 out += list(sub)
         return It(out)
+    if kind == "fold":
+        span = re.search(r"\{closure@([^}]*)\}", m.group(0))
+        fn = closure_fn(it, span.group(1))
+        acc = a[1]
+        for _ in range(len(src.items)):
+            acc = call_closure(it, fn, a[2], [acc, src.pop(it)])
+        return acc
     if kind == "chain":
         other = pm.deref(a[1])
         if isinstance(other, list):
@@ -219,7 +226,7 @@ NATIVES = [
     (R(r"core::slice::<impl \[.*\]>::iter"), n_iter),
     (R(r"<&?(?:mut )?(?:std::vec::)?Vec<.*> as IntoIterator>::into_iter|<&\[.*\] as IntoIterator>::into_iter|<&\[.*; \d+\] as IntoIterator>::into_iter|<\[.*; \d+\] as IntoIterator>::into_iter"), n_into_iter),
     (R(r"<(?:std::iter::)?(?:Take|Skip|Rev|Enumerate|Zip|Chain|FlatMap|Map|Copied|Cloned|ChunksExactMut|ChunksExact)<.*> as IntoIterator>::into_iter|<std::slice::Iter<'_, .*> as IntoIterator>::into_iter|<std::vec::IntoIter<.*> as IntoIterator>::into_iter"), pm.n_identity),
-    (R(r"<.* as (?:Iterator|DoubleEndedIterator)>::(take|skip|rev|enumerate|zip|chain|flat_map|copied|cloned|map|next|collect)(?:::<.*>)?"), n_adapt),
+    (R(r"<.* as (?:Iterator|DoubleEndedIterator)>::(take|skip|rev|enumerate|zip|chain|flat_map|fold|copied|cloned|map|next|collect)(?:::<.*>)?"), n_adapt),
     (R(r"<(?:std::vec::)?Vec<.*> as Index<(?:std::ops::)?(RangeTo|RangeFrom|Range)<usize>>>::index|core::slice::index::<impl Index<(?:std::ops::)?(RangeTo|RangeFrom|Range)<usize>> for \[.*\]>::index"), n_index_range),
     (R(r"<\[.*\] as Index<(?:std::ops::)?(RangeTo|RangeFrom|Range)<usize>>>::index"), n_index_range),
     (R(r"<(?:std::vec::)?Vec<.*> as IndexMut<(?:std::ops::)?(RangeTo|RangeFrom|Range)<usize>>>::index_mut|<\[.*\] as IndexMut<(?:std::ops::)?(RangeTo|RangeFrom|Range)<usize>>>::index_mut"), n_index_range),
